@@ -230,14 +230,22 @@ cfg_if! {
         }
     } else {
         pub fn is_file_shim(path: &Path) -> bool {
+            #[cfg(mathcat_verif)]
+            if let Some(env) = crate::verif_hooks::env() { return env.is_file(path); }
             return path.is_file();
         }
         
         pub fn is_dir_shim(path: &Path) -> bool {
+            #[cfg(mathcat_verif)]
+            if let Some(env) = crate::verif_hooks::env() { return env.is_dir(path); }
             return path.is_dir();
         }
         
         pub fn find_file_in_dir_that_ends_with_shim(dir: &Path, ending: &str) -> Option<String> {
+            #[cfg(mathcat_verif)]
+            if let Some(env) = crate::verif_hooks::env() {
+                return env.read_dir_names(dir)?.into_iter().find(|file_name| file_name.ends_with(ending));
+            }
             match dir.read_dir() {
                 Err(_) => return None,    // empty
                 Ok(read_dir) => {
@@ -254,10 +262,26 @@ cfg_if! {
         }
         
         pub fn canonicalize_shim(path: &Path) -> std::io::Result<PathBuf> {
+            #[cfg(mathcat_verif)]
+            if let Some(env) = crate::verif_hooks::env() { return env.canonicalize(path); }
             return path.canonicalize();
         }
         
         pub fn read_to_string_shim(path: &Path) -> Result<String> {
+            #[cfg(mathcat_verif)]
+            if let Some(env) = crate::verif_hooks::env() {
+                // same two steps and messages as below, but asking the installed environment
+                let path = match env.canonicalize(path) {
+                    Ok(path) => path,
+                    Err(e) => bail!("Read error while trying to canonicalize in read_to_string_shim {}: {}", path.display(), e),
+                };
+                let result = env.read(&path).and_then(|bytes| String::from_utf8(bytes)
+                        .map_err(|_| std::io::Error::new(std::io::ErrorKind::InvalidData, "stream did not contain valid UTF-8")));
+                match result {
+                    Ok(str) => return Ok(str),
+                    Err(e) => bail!("Read error while trying to read {}: {}", &path.display(), e),
+                }
+            }
             let path = match path.canonicalize() {
                 Ok(path) => path,
                 Err(e) => bail!("Read error while trying to canonicalize in read_to_string_shim {}: {}", path.display(), e),
@@ -270,6 +294,22 @@ cfg_if! {
         }
 
         pub fn zip_extract_shim(dir: &Path, zip_file_name: &str) -> Result<bool> {
+            #[cfg(mathcat_verif)]
+            if let Some(env) = crate::verif_hooks::env() {
+                // same steps as below, but reading from and extracting into the installed environment
+                return match env.read(&dir.join(zip_file_name)) {
+                    Err(e) => {
+                        match find_file_in_dir_that_ends_with_shim(dir, ".yaml") {
+                            None => bail!("{}", e),
+                            Some(_file_name) => Ok(false),
+                        }
+                    },
+                    Ok(contents) => {
+                        crate::verif_hooks::zip_extract(&env, dir, contents).expect("Zip extraction failed");
+                        Ok(true)
+                    },
+                };
+            }
             let zip_file = dir.join(zip_file_name);
             return match std::fs::read(zip_file) {
                 Err(e) => {
